@@ -144,6 +144,30 @@ def instances(ck):
                 add("ramlb-%d-%s-%d-%d-%d" % (n, gen.gid(e), k, s_, sb), "ramlb", {"k": k, "s": s_, "sb": sb},
                     lambda c, n=n, e=e, k=k, s_=s_, sb=sb: RamseyWitnessFormula(G(n, e), k, s_, sb, formula_class=c),
                     gj(n, e), kf=("ramlb:k!=s" if k != s_ else None))
+    # the same graph object used again after it has grown: nothing may be remembered about it
+    import cnfgen as _c
+    grown = []
+    for t in range(12 if q else 60):
+        n = rng.randint(2, 4)
+        pairs = [[u, v] for u in range(1, n + 1) for v in range(u + 1, n + 1)]
+        rng.shuffle(pairs)
+        Gobj = gen.mk_graph(n, [])
+        have = []
+        for e in pairs[: rng.randint(1, len(pairs))]:
+            for fam, par, fn in (("domset", {"d": 2, "alt": False}, lambda c, G=Gobj: _c.DominatingSet(G, 2, False, formula_class=c)),
+                                 ("domset", {"d": 1, "alt": True}, lambda c, G=Gobj: _c.DominatingSet(G, 1, True, formula_class=c)),
+                                 ("tiling", None, lambda c, G=Gobj: _c.Tiling(G, formula_class=c)),
+                                 ("kcolor", {"k": 2, "fun": True}, lambda c, G=Gobj: _c.GraphColoringFormula(G, 2, True, formula_class=c)),
+                                 ("tseitin", {"chmode": "none", "ch": []}, lambda c, G=Gobj: _c.TseitinFormula(G, None, formula_class=c)),
+                                 ("kclique", {"k": 2, "sb": True}, lambda c, G=Gobj: _c.CliqueFormula(G, 2, True, formula_class=c)),
+                                 ("evencol", None, lambda c, G=Gobj: _c.EvenColoringFormula(G, formula_class=c))):
+                if fam == "domset" and n + n * par["d"] > 12:
+                    continue
+                grown.append(gen.build("grown-%d-%d-%s-%s" % (t, len(have), fam, "a" if par and par.get("alt") else "n"),
+                                       fam, par, lambda fn=fn: fn(_c.CNF), {"n": n, "edges": sorted(have)}))
+            Gobj.add_edge(*e)
+            have.append(sorted(e))
+    recs += grown
     return recs
 
 
